@@ -136,6 +136,13 @@ func c15Child(scPath string) int {
 		for _, u := range level0 {
 			hq.addSeed(u, "", "")
 		}
+		// URL texts the crawler cannot parse are finished without a fetch; they are handed out by id and
+		// must be acknowledged by id like any other seed
+		if sc.Index%2 == 0 {
+			for _, bad := range []string{"no-scheme.example/page", "/relative/only", "http://%zz/x"} {
+				hq.addSeed(bad, "", "")
+			}
+		}
 	} else {
 		// local queue: a hub (input seed, hops 0) links to the level-0 pages, twice each (duplicates must not be queued twice)
 		hub := hostOf(9, 254, org.Port)
